@@ -891,6 +891,11 @@ CONSTRAINT_SETS = {
     "zero_bound_upper": ({"fix_var": _BASE_FIX, "decay": {"fix_chain_idx": 1, "fix_chain_val": 1.0},
                           "var_range": {_PHI_BC: [-3.14, 0.0], _RHO_BC: [0.1, None], _TIED[0]: [0, None]}}, None, {_PHI_BC: -0.4, _RHO_BC: 0.7},
                          {_PHI_BC: (-3.14, 0.0), _RHO_BC: (0.1, None), _TIED[0]: (0, None)}),
+    # a polar PHASE bounded to an interval that reaches beyond pi (a legal description: phi in [0, 6.2]) and started inside it at 4.0: the phase tidy-up that follows
+    # the scipy minimisers (standard_complex -> std_polar wraps into [-pi, pi)) must leave a bounded component alone - "bounded parameters lie inside their bounds"
+    # (added after an observation of a batch-10 seeding agent on the unchanged tree)
+    "phase_range_beyond_pi": ({"fix_var": _BASE_FIX, "var_range": {_PHI: [0, 6.2], _RHO: [0.1, None], _RHO2: [0.0, None]}}, None, {_PHI: 4.0},
+                              {_PHI: (0, 6.2), _RHO: (0.1, None), _RHO2: (0.0, None)}),
     # a Gaussian constraint that PULLS: with these six floating parameters the unconstrained optimum of the toy sample has R_BC_mass ~ 4.198,
     # NLL -76.6 (BFGS and iminuit agree; the toy sample determines the mass only to ~0.03).  The constraint 4.12 +- 0.007 is ~11 sigma below it: the
     # constrained optimum sits ~2 sigma above the mean (term ~2), the start (configured mass 4.16) carries a term of 16.  A minimiser that drops the
@@ -1215,6 +1220,7 @@ def fit_first_order(ctx):
     if ctx.tier == "quick":
         _fit_group(ctx, ["BFGS"], ["tied", "two_sided", "gauss"], [1, 5, 30], agg=agg)
         _fit_group(ctx, ["BFGS", "CG"], ["tied_negative"], [2], second_fit=False, agg=agg)
+        _fit_group(ctx, ["BFGS"], ["phase_range_beyond_pi"], [5], second_fit=False, agg=agg)
         _fit_group(ctx, ["BFGS"], ["gauss_pull"], [30], agg=agg)
         _fit_group(ctx, ["BFGS"], _ZERO_SETS, [30], second_fit=False, agg=agg)
         _fit_group(ctx, ["CG", "test", "Nelder-Mead"], ["none", "gauss_pull"], [5], second_fit=False, agg=agg)
@@ -1342,7 +1348,7 @@ def fit_lbfgsb_minuit(ctx):
     if quick:
         _fit_group(ctx, ["L-BFGS-B"], ["fixed", "one_sided"], [1, 5, 30], agg=agg)
         _fit_group(ctx, ["L-BFGS-B"], _ZERO_SETS, [30], second_fit=False, agg=agg)
-        _fit_group(ctx, ["L-BFGS-B"], ["gauss_pull"], [5], second_fit=False, agg=agg)
+        _fit_group(ctx, ["L-BFGS-B"], ["gauss_pull", "phase_range_beyond_pi"], [5], second_fit=False, agg=agg)
     else:
         _fit_group(ctx, ["L-BFGS-B"], list(CONSTRAINT_SETS), [1, 5, None], agg=agg)
     if _have_iminuit(ctx):
